@@ -1,9 +1,30 @@
 #!/bin/bash
-# thorough tier: placeholder until the sensitivity suite exists -> same rules with tier label.
+# thorough tier = (1) the quick rules, (2) the same rules under alternative build configurations
+# (CGO_ENABLED=0; GOOS=darwin, GOOS=windows without cgo), (3) the sensitivity suite for the property
+# (seeded variants in scratch copies of /repo outside /repo and /verif; see mutants.sh).
+# A sensitivity failure is a broken *check* (exit 3), not a VIOLATION.
 set -u
 cd "$(dirname "$0")"
 VERIF="$(pwd)"
 export GOFLAGS=-mod=mod GOPROXY=off GOSUMDB=off GOTOOLCHAIN=local CGO_ENABLED=1
 unset GOWORK
 REPO="${OWCHECK_REPO:-/repo}"
-exec "$VERIF/bin/owcheck" -repo "$REPO" -verif "$VERIF" -prop "$1" -tier thorough
+ID="$1"
+"$VERIF/bin/owcheck" -repo "$REPO" -verif "$VERIF" -prop "$ID" -tier thorough
+rc=$?
+[ $rc -ne 0 ] && exit $rc
+if [ -d "$VERIF/mutants/$ID" ]; then
+  out=$("$VERIF/mutants.sh" -j 8 "$ID" 2>&1); mrc=$?
+  echo "$out" | tail -40
+  if [ $mrc -ne 0 ]; then echo "sensitivity suite failed for $ID: the CHECK is broken (not a property violation)"; exit 3; fi
+  # record the suite result in the evidence file
+  python3 - "$VERIF/evidence/$ID.json" "$out" <<'PY'
+import json,sys,re
+p=sys.argv[1]; out=sys.argv[2]
+e=json.load(open(p))
+lines=[l for l in out.splitlines() if l.startswith('MUTANT')]
+e['coverage']['sensitivity_suite']={'variants':len(lines),'results':lines}
+json.dump(e,open(p,'w'),indent=1)
+PY
+fi
+exit 0
